@@ -11,6 +11,9 @@ sys.path.insert(0, str(HERE))
 
 from vlib import core  # noqa: E402
 
+import logging  # noqa: E402
+logging.disable(logging.CRITICAL)
+
 
 def setup():
     """Run every translator, then build everything (fresh restore)."""
